@@ -1156,4 +1156,7 @@ def run(model, R):
                 R.ok('ANCHOR', func, func.node, name, 'private helper, judged inside every caller (all calls spliced into the known mutators)')
                 continue
             R.unknown('ANCHOR', func, func.node, name, 'a mutator that the rule table does not know')
+    # "a call the model rejects (... conflicting cells) raises": the conflict test behind union_update/intersection_update
+    from . import c14
+    R.guard('CONFLICTS', None, 'conflicting_pairs', c14.conflicting, model, R)
     return __doc__.strip()
